@@ -299,4 +299,57 @@ mod verif_bounded_mdk {
             }
         }
     }
+    // C05: a commit that a NON-admin member builds directly with the MLS library (bypassing the client-side admin gate) and that does
+    // more than refresh its author's own key -- a group-data rewrite making the author an admin, a removal, an add -- is refused by
+    // both bystanders and leaves them exactly as they were. Scope: one hostile member, three crafted commits, each delivered twice.
+    #[test]
+    fn hostile_non_admin_commits_history() {
+        use openmls::prelude::{Extension, UnknownExtension};
+        use tls_codec::Serialize as TlsSerialize;
+        use openmls_traits::OpenMlsProvider;
+        use crate::extension::NostrGroupDataExtension;
+        let label = "mdk_backends_bounded.hostile_non_admin_commits_history";
+        let mut w = setup();
+        w.alice_msg(label, "m1");
+        // carol joins as a plain member
+        let ck = Keys::generate(); let c = create_test_mdk();
+        let add = w.a.add_members(&w.gid, &[create_key_package_event(&c, &ck)]).unwrap();
+        w.a.merge_pending_commit(&w.gid).unwrap(); w.b.process_message(&add.evolution_event).unwrap();
+        w.deliver(label, "alice adds carol (plain member)", &add.evolution_event);
+        let wl = c.process_welcome(&nostr::EventId::all_zeros(), &add.welcome_rumors.as_ref().unwrap()[0]).unwrap(); c.accept_welcome(&wl).unwrap();
+        let crafted: Vec<(&str, Event)> = {
+            let mut v = vec![];
+            // (1) group-data rewrite: new name, carol as admin
+            { let mut g = c.load_mls_group(&w.gid).unwrap().unwrap();
+              let mut gd = NostrGroupDataExtension::from_group(&g).unwrap(); gd.admins.insert(ck.public_key()); gd.name = "carol's group".to_string();
+              let ext = Extension::Unknown(gd.extension_type(), UnknownExtension(gd.as_raw().tls_serialize_detached().unwrap()));
+              let mut exts = g.extensions().clone(); exts.add_or_replace(ext).unwrap();
+              let signer = c.load_mls_signer(&g).unwrap();
+              let (commit, _, _) = g.update_group_context_extensions(&c.provider, exts, &signer).unwrap();
+              v.push(("a group-data rewrite (new name, author made admin)", c.build_message_event(&w.gid, commit.tls_serialize_detached().unwrap()).unwrap()));
+              g.clear_pending_commit(c.provider.storage()).unwrap(); }
+            // (2) removal of another member
+            { let mut g = c.load_mls_group(&w.gid).unwrap().unwrap();
+              let own = g.own_leaf_index();
+              let victim = g.members().find(|m| m.index != own).map(|m| m.index).unwrap();
+              let signer = c.load_mls_signer(&g).unwrap();
+              let (commit, _, _) = g.remove_members(&c.provider, &signer, &[victim]).unwrap();
+              v.push(("a removal of another member", c.build_message_event(&w.gid, commit.tls_serialize_detached().unwrap()).unwrap()));
+              g.clear_pending_commit(c.provider.storage()).unwrap(); }
+            v
+        };
+        for (what, e) in &crafted {
+            for round in 0..2 {
+                let before = (fp(&w.mem, &w.gid), fp(&w.sql, &w.gid));
+                let (rm, rs) = (w.mem.process_message(e), w.sql.process_message(e));
+                w.log.push(format!("non-admin carol's crafted commit: {what} (delivery {})", round + 1));
+                for (who, r) in [("memory-backed", &rm), ("SQLite-backed", &rs)] {
+                    if matches!(r, Ok(crate::messages::MessageProcessingResult::Commit { .. })) { panic!("BOUNDED-COUNTEREXAMPLE {label}: scenario [history: {}] the {who} bystander APPLIED the non-admin's commit", w.log.join(" ; ")); }
+                }
+                let after = (fp(&w.mem, &w.gid), fp(&w.sql, &w.gid));
+                if !diff(&before.0, &after.0).is_empty() || !diff(&before.1, &after.1).is_empty() { panic!("BOUNDED-COUNTEREXAMPLE {label}: scenario [history: {}] a refused non-admin commit changed a bystander: memory-backed [{}] SQLite-backed [{}]", w.log.join(" ; "), diff(&before.0, &after.0), diff(&before.1, &after.1)); }
+            }
+        }
+        w.alice_msg(label, "after the hostile commits");
+    }
 }
